@@ -1,23 +1,24 @@
 /-
   C11 — a mutex admits one running stage; a deferred choice has exactly one winner.
 
-  Model: `Stab.Claims` (Model/Claims.lean).  All theorems quantify over every stage list (any number of stages, any
-  assignment of mutex keys / choice groups), both values of `fixSteal`, and EVERY sequence of operations — stale
-  fast-path reads (`peekM`/`peekC` … `claim`), atomic starts, finishes, cancels, parking, jump re-arms, retention sweeps
-  and `endWorkflow` attempts at arbitrary points — as long as the execution has not become terminal
-  (`(run …).wfTerminal = false`; the flag is monotone, so this covers every prefix).
+  Model: `Stab.Claims` (Model/Claims.lean) — the code with fixes b2e8739 (F30: a mutex claim whose owner was re-armed by a jump
+  can be taken over) and 9adf23a (F31: the retention sweep keeps claims whose owner stage is live).  All theorems quantify over
+  every stage list (any number of stages, any assignment of mutex keys / choice groups) and EVERY sequence of operations —
+  stale fast-path reads (`peekM`/`peekC` … `claim`), atomic starts, finishes, cancels, parking, jump re-arms, `endWorkflow`
+  attempts and retention sweeps at arbitrary points.
 
-    `mutex_owner_invariant` ⇒ `mutex_exclusive`, `choice_single_winner`, `winner_cancels_siblings`,
-    `loser_cancels_self`, `mutex_progress` / `mutex_progress_free` (steal path), `mutex_progress_fixed`,
-    `sweep_only_terminal_executions`.
+  Mutex (unconditional, also for executions that already became terminal):
+    `mutex_owner_invariant` ⇒ `mutex_exclusive`; `sweep_keeps_live_claims`;
+    `mutex_progress` (no live stage with the key ⇒ a delivered waiter starts: holder complete, holder re-armed by a jump,
+    key never taken), with the special cases `mutex_progress_holder_complete` / `mutex_progress_free`.
+  Deferred choice (for executions that are not terminal — `(run …).wfTerminal = false`; the flag is monotone, so this covers
+  every prefix; the last `example` shows why the hypothesis is needed):
+    `choice_single_winner`, `start_is_logged`, `winner_cancels_siblings`, `loser_cancels_self`.
+  Sweep: `sweep_only_terminal_executions`, `sweeps_are_noops_while_live`.
 
-  What is FALSE of the code as found (each with a witness; replayed on the engine by harness/props/c11.py):
-    `rearm_deadlock_counterexample`   — F30: a jump re-arm leaves the claim row with a NOT_STARTED owner; a waiter is
-                                        re-queued forever although nobody holds the mutex (`mutex_progress` needs the
-                                        hypothesis "owner complete"); with proposed_fixes/F30.diff `mutex_progress_fixed` holds.
-    `sweep_terminal_counterexample*`  — once the EXECUTION is terminal (which `CompleteWorkflowHandler` decides as soon as
-                                        any stage is TERMINAL/CANCELED, even while others are live) the sweep frees claims of
-                                        live stages, and two stages of one key can be live together.
+  LEGACY (about the code BEFORE fix b2e8739, `fixSteal = false`; kept as the regression witness of finding F30):
+    `legacy_rearm_deadlock_before_fix`.  The F31 witnesses (sweep of a terminal execution freeing a live holder's claim)
+    are gone with the old sweep; the same op lists are now `example`s of exclusiveness.
 -/
 import Stab.Lemmas.Claims
 
@@ -25,32 +26,31 @@ namespace Stab.Props.C11
 open Stab Stab.Claims
 
 /-- **mutex_owner_invariant.** A RUNNING / SUSPENDED / PAUSED stage with mutex key k owns the claim row of k. -/
-theorem mutex_owner_invariant (f : Bool) (stages : List Stage) (ops : List Op)
-    (hend : (run (init f stages) ops).wfTerminal = false) (i : Nat) (g : Stage) (k : Nat)
+theorem mutex_owner_invariant (f : Bool) (stages : List Stage) (ops : List Op) (i : Nat) (g : Stage) (k : Nat)
     (hi : (run (init f stages) ops).stages[i]? = some g) (hl : live g.status = true) (hm : g.mutex = some k) :
     getC (run (init f stages) ops).claims (.mutex k) = some i :=
-  (run_inv (init_inv f stages) ops hend).owner i g k hi hl hm
+  (run_inv (init_inv f stages) ops).owner i g k hi hl hm
 
-/-- **mutex_exclusive.** Never two live stages with one key. -/
-theorem mutex_exclusive (f : Bool) (stages : List Stage) (ops : List Op)
-    (hend : (run (init f stages) ops).wfTerminal = false) (i j : Nat) (gi gj : Stage) (k : Nat)
+/-- **mutex_exclusive.** Never two live stages with one key — whatever happened before, including the execution having become
+    terminal and sweeps having run. -/
+theorem mutex_exclusive (f : Bool) (stages : List Stage) (ops : List Op) (i j : Nat) (gi gj : Stage) (k : Nat)
     (hi : (run (init f stages) ops).stages[i]? = some gi) (hj : (run (init f stages) ops).stages[j]? = some gj)
     (hli : live gi.status = true) (hlj : live gj.status = true) (hmi : gi.mutex = some k) (hmj : gj.mutex = some k) :
     i = j := by
-  have a := mutex_owner_invariant f stages ops hend i gi k hi hli hmi
-  have b := mutex_owner_invariant f stages ops hend j gj k hj hlj hmj
+  have a := mutex_owner_invariant f stages ops i gi k hi hli hmi
+  have b := mutex_owner_invariant f stages ops j gj k hj hlj hmj
   rw [a] at b; exact Option.some.inj b
 
-/-- **choice_single_winner.** Of one deferred-choice group at most one stage ever commits NOT_STARTED → RUNNING
+/-- **choice_single_winner.** While the execution is not terminal: of one deferred-choice group at most one stage ever commits NOT_STARTED → RUNNING
     (`started` logs every such commit; the same stage may start again after a re-arm). -/
 theorem choice_single_winner (f : Bool) (stages : List Stage) (ops : List Op)
     (hend : (run (init f stages) ops).wfTerminal = false) (i j : Nat) (gi gj : Stage) (c : Nat)
     (hi : i ∈ (run (init f stages) ops).started) (hj : j ∈ (run (init f stages) ops).started)
     (hgi : (run (init f stages) ops).stages[i]? = some gi) (hgj : (run (init f stages) ops).stages[j]? = some gj)
     (hci : gi.group = some c) (hcj : gj.group = some c) : i = j := by
-  have inv := run_inv (init_inv f stages) ops hend
-  have a := inv.winner i gi c hi hgi hci
-  have b := inv.winner j gj c hj hgj hcj
+  have inv := run_inv (init_inv f stages) ops
+  have a := inv.winner hend i gi c hi hgi hci
+  have b := inv.winner hend j gj c hj hgj hcj
   rw [a] at b; exact Option.some.inj b
 
 /-- the two shapes of a `_start_if_ready` outcome: nothing about the stages changed, or stage `i` went RUNNING and was logged -/
@@ -175,9 +175,9 @@ theorem not_blocked_of_no_running {s : St} {t : Nat}
         simp only [Bool.and_eq_true, beq_iff_eq] at hj2
         exact h j gj g k hg hm hne hgj hj2.1 hj2.2
 
-/-- **mutex_progress (steal path).** If the holder of key k is complete and the waiter's StartStage is delivered, the waiter
-    acquires the key and starts. -/
-theorem mutex_progress (s : St) (hinv : Inv s) (t o k : Nat) (g : Stage) (st : Status)
+/-- **mutex_progress, holder complete (steal path).** If the holder of key k is complete and the waiter's StartStage is
+    delivered, the waiter acquires the key and starts (holds with and without fix b2e8739). -/
+theorem mutex_progress_holder_complete (s : St) (hinv : Inv s) (t o k : Nat) (g : Stage) (st : Status)
     (hg : s.stages[t]? = some g) (hns : g.status = .notStarted) (hm : g.mutex = some k) (hc : g.group = none)
     (hown : getC s.claims (.mutex k) = some o) (hst : statusOf s o = some st) (hcomp : st.isComplete = true) :
     (step s (.tryStart t)).2 = .started ∧ getC (step s (.tryStart t)).1.claims (.mutex k) = some t := by
@@ -206,9 +206,9 @@ theorem mutex_progress_free (s : St) (hinv : Inv s) (t k : Nat) (g : Stage)
     rw [hown] at this; cases this
   simp [step, claimWith, hg, hns, hnb, hm, hc, acquire, hown, getC_setC_eq]
 
-/-- **mutex_progress with proposed_fixes/F30.diff.** Whenever no stage with key k is live, a delivered StartStage of a
-    NOT_STARTED stage with key k starts it — in every reachable state, after any number of jump re-arms. -/
-theorem mutex_progress_fixed (s : St) (hinv : Inv s) (hfix : s.fixSteal = true) (t k : Nat) (g : Stage)
+/-- **mutex_progress.** Whenever no stage with key k is live, a delivered StartStage of a NOT_STARTED stage with key k starts
+    it — in every state satisfying the invariant (= every reachable state, `reachable_inv`), after any number of jump re-arms. -/
+theorem mutex_progress (s : St) (hinv : Inv s) (hfix : s.fixSteal = true) (t k : Nat) (g : Stage)
     (hg : s.stages[t]? = some g) (hns : g.status = .notStarted) (hm : g.mutex = some k) (hc : g.group = none)
     (hfree : ∀ (j : Nat) (gj : Stage), s.stages[j]? = some gj → gj.mutex = some k → live gj.status = false) :
     (step s (.tryStart t)).2 = .started ∧ getC (step s (.tryStart t)).1.claims (.mutex k) = some t := by
@@ -224,7 +224,7 @@ theorem mutex_progress_fixed (s : St) (hinv : Inv s) (hfix : s.fixSteal = true) 
     simp only [step, claimWith, hg, hns, hnb, hm, hc, ne_eq, not_true_eq_false, if_false, Bool.false_eq_true, Option.isSome_none, Bool.false_and]
     by_cases e : o = t
     · subst e; simp [acquire, hown]
-    · obtain ⟨go, hgo, hmo⟩ := hinv.claimKey k o hown
+    · obtain ⟨go, hgo, hmo⟩ := hinv.claimKey k o (getC_mem hown)
       have hnl := hfree o go hgo hmo
       have hso : statusOf s o = some go.status := by unfold statusOf; rw [hgo]; rfl
       have hsteal : (go.status.isComplete || (s.fixSteal && go.status == .notStarted)) = true := by
@@ -260,51 +260,47 @@ theorem sweeps_are_noops_while_live (s : St) (ops : List Op) (hend : (run s ops)
       rw [run_cons]
       exact ih _ hend
 
-/-! ### what is false of the code as found -/
+/-- every reachable state satisfies the invariant the progress theorems ask for -/
+theorem reachable_inv (f : Bool) (stages : List Stage) (ops : List Op) : Inv (run (init f stages) ops) :=
+  run_inv (init_inv f stages) ops
+
+/-- **mutex_progress after a jump re-arm**, end to end: whatever happened before, once no stage with key k is live a delivered
+    StartStage of a NOT_STARTED stage with that key starts it. -/
+theorem mutex_progress_reachable (stages : List Stage) (ops : List Op) (t k : Nat) (g : Stage)
+    (hg : (run (init true stages) ops).stages[t]? = some g) (hns : g.status = .notStarted) (hm : g.mutex = some k) (hc : g.group = none)
+    (hfree : ∀ (j : Nat) (gj : Stage), (run (init true stages) ops).stages[j]? = some gj → gj.mutex = some k → live gj.status = false) :
+    (step (run (init true stages) ops) (.tryStart t)).2 = .started := by
+  have hfix : (run (init true stages) ops).fixSteal = true := by rw [run_fix]; rfl
+  exact (mutex_progress _ (reachable_inv true stages ops) hfix t k g hg hns hm hc hfree).1
+
+/-- **sweep_keeps_live_claims.** A retention sweep at any point, terminal execution or not, leaves every live stage the owner of
+    its key's claim row. -/
+theorem sweep_keeps_live_claims (s : St) (hinv : Inv s) (i : Nat) (g : Stage) (k : Nat)
+    (hi : s.stages[i]? = some g) (hl : live g.status = true) (hm : g.mutex = some k) :
+    getC (step s .sweep).1.claims (.mutex k) = some i := by
+  have h' := (step_inv hinv .sweep).owner i g k
+  have hst : (step s .sweep).1.stages = s.stages := by simp only [step]; split <;> rfl
+  rw [hst] at h'
+  exact h' hi hl hm
+
+/-! ### legacy: the code before fix b2e8739 (finding F30) -/
 
 def twoMutex : List Stage := [{ mutex := some 0 }, { mutex := some 0 }]
 
-/-- **F30 (re-arm keeps the claim row).** `t`(0) and `s`(1) share a key; `t` runs and finishes, `s` steals the key and runs,
-    then a jump re-arms both (retry loop `t → s`, `s` jumps back to `t`).  Nobody is live, yet `StartStage(t)` is re-queued
-    and changes nothing — forever. -/
-theorem rearm_deadlock_counterexample :
+/-- **LEGACY — about the code BEFORE fix b2e8739 (`fixSteal = false`).** `t`(0) and `s`(1) share a key; `t` runs and finishes,
+    `s` takes the key over and runs, then a jump re-arms both (retry loop `t → s`, `s` jumps back to `t`).  Nobody is live,
+    yet `StartStage(t)` was re-queued and changed nothing — forever.  Regression witness of replays/C11/f30-*.json. -/
+theorem legacy_rearm_deadlock_before_fix :
     let s := run (init false twoMutex) [.tryStart 0, .finish 0 .succeeded, .tryStart 1, .reset 1, .reset 0]
     s.wfTerminal = false ∧ s.stages.all (fun g => !live g.status) = true ∧ getC s.claims (.mutex 0) = some 1 ∧
       (step s (.tryStart 0)).2 = .requeued ∧ (step s (.tryStart 0)).1.stages = s.stages ∧ (step s (.tryStart 0)).1.claims = s.claims := by
   decide
 
-/-- with the fix the same state lets `t` start -/
-theorem rearm_fixed_example :
+/-- the same state in the code as it is now: `t` starts -/
+theorem rearm_progress_example :
     let s := run (init true twoMutex) [.tryStart 0, .finish 0 .succeeded, .tryStart 1, .reset 1, .reset 0]
     (step s (.tryStart 0)).2 = .started := by
   decide
-
-/-- **sweep of a terminal execution with a live holder (stale fast path).** Stage 2 is cancelled, `endWorkflow` makes the
-    execution terminal ("any CANCELED") while stage 0 is RUNNING; the sweep deletes its claim; stage 1, whose fast-path read
-    predates stage 0's start, claims the key: two RUNNING stages with one key. -/
-theorem sweep_terminal_counterexample :
-    let s := run (init false [{ mutex := some 0 }, { mutex := some 0 }, {}])
-      [.peekM 0, .peekM 1, .claim 0, .cancel 2, .endWorkflow, .sweep, .claim 1]
-    s.wfTerminal = true ∧ s.stages.map (·.status) = [.running, .running, .canceled] := by
-  decide
-
-/-- same without any stale read: the holder is SUSPENDED (the fast path only looks for RUNNING siblings) -/
-theorem sweep_terminal_suspended_counterexample :
-    let s := run (init false [{ mutex := some 0 }, { mutex := some 0 }, {}])
-      [.tryStart 0, .park 0 .suspended, .cancel 2, .endWorkflow, .sweep, .tryStart 1, .unpark 0]
-    s.wfTerminal = true ∧ s.stages.map (·.status) = [.running, .running, .canceled] := by
-  decide
-
-/-- the unrestricted `mutex_exclusive` (dropping "execution not terminal") is therefore false -/
-theorem mutex_exclusive_false_for_terminal_executions :
-    ¬ ∀ (f : Bool) (stages : List Stage) (ops : List Op) (i j : Nat) (gi gj : Stage) (k : Nat),
-        (run (init f stages) ops).stages[i]? = some gi → (run (init f stages) ops).stages[j]? = some gj →
-        live gi.status = true → live gj.status = true → gi.mutex = some k → gj.mutex = some k → i = j := by
-  intro h
-  have := h false [{ mutex := some 0 }, { mutex := some 0 }, {}]
-    [.tryStart 0, .park 0 .suspended, .cancel 2, .endWorkflow, .sweep, .tryStart 1, .unpark 0]
-    0 1 { status := .running, mutex := some 0 } { status := .running, mutex := some 0 } 0 (by decide) (by decide) rfl rfl rfl rfl
-  cases this
 
 /-! ### non-vacuity -/
 
@@ -327,6 +323,30 @@ example :
 example :
     let s := run (init false twoMutex) [.tryStart 0, .tryStart 1, .finish 0 .succeeded]
     getC s.claims (.mutex 0) = some 0 ∧ statusOf s 0 = some .succeeded ∧ statusOf s 1 = some .notStarted ∧ s.wfTerminal = false := by
+  decide
+
+/-- the op lists that used to break exclusiveness (finding F31: sweep of a terminal execution) now keep it: the live holder's
+    claim survives the sweep and the waiter is re-queued -/
+example :
+    let r := runOut (init true [{ mutex := some 0 }, { mutex := some 0 }, {}])
+      [.tryStart 0, .park 0 .suspended, .cancel 2, .endWorkflow, .sweep, .tryStart 1, .unpark 0]
+    r.1.wfTerminal = true ∧ r.1.stages.map (·.status) = [.running, .notStarted, .canceled] ∧ getC r.1.claims (.mutex 0) = some 0 ∧
+      r.2 = [.started, .ok, .ok, .ok, .ok, .requeued, .ok] := by
+  decide
+
+example :
+    let s := run (init true [{ mutex := some 0 }, { mutex := some 0 }, {}])
+      [.peekM 0, .peekM 1, .claim 0, .cancel 2, .endWorkflow, .sweep, .claim 1]
+    s.wfTerminal = true ∧ s.stages.map (·.status) = [.running, .notStarted, .canceled] := by
+  decide
+
+/-- why `choice_single_winner` speaks about executions that are not terminal: once the execution is terminal the sweep may drop the
+    claim row of a FINISHED winner, and a member whose fast-path read predates everything could still claim (nothing should start
+    in a terminal execution at all — that is C17's subject, not this property's) -/
+example :
+    let s := run (init true [{ group := some 0 }, { group := some 0 }, { group := some 0 }])
+      [.peekC 2, .tryStart 0, .finish 0 .succeeded, .cancel 1, .endWorkflow, .sweep, .claim 2]
+    s.wfTerminal = true ∧ s.started = [2, 0] := by
   decide
 
 end Stab.Props.C11
